@@ -1,15 +1,18 @@
-(* C11 C12 C13: the waits of the server packages.  The scheduler models (Model/Writer.v: one timeout goroutine per
-   command that sleeps for the command's overtime; Model/Registry.v and Model/Server.v: joins, leaves and sends
-   that wait for the session manager WITHOUT a time limit; no read or write deadline on any connection - the
-   open findings C12|C13/blocked-write rest on exactly that) contain the waits the code has.  The translator counts,
-   in the non-test files of packages service and attachment of the tree under check, every call of time.After /
+(* C11 C12 C13: the waits of the server packages - a SYNTACTIC bound, stated for what it is.  The translator counts,
+   in the non-test files of packages service and attachment of the tree under check, the call SITES of time.After /
    NewTimer / AfterFunc / Tick / NewTicker / Sleep, context.WithTimeout / WithDeadline and Set(Read|Write)Deadline.
+   It inspects no argument and no control flow.
 
-   [tables_time_bounded]: no such call beyond the audited ones (one time.Sleep in package service: the timeout
-   goroutine of connection.onActiveEvent).  A new timer, timeout or deadline anywhere in the two packages - e.g. a
-   join that gives up after 3 s while its insert stays queued - is a wait the models do not have and breaks this
-   obligation whether or not a generated schedule reaches it; removing one or moving it to another function of
-   the package does not. *)
+   [tables_time_bounded]: there is no such call site beyond the audited one (one time.Sleep in package service: the
+   timeout goroutine of connection.onActiveEvent, which Model/Writer.v has as the command's timeout step).  What this
+   buys: the scheduler models (Model/Writer.v, Model/Registry.v, Model/Server.v) have no other timed wait - joins,
+   leaves and sends wait for the session manager without a time limit, no connection has a read or write deadline
+   (the open findings C12|C13/blocked-write rest on exactly that) - and a NEW timer, timeout or deadline anywhere in
+   the two packages (e.g. a join that gives up after 3 s while its insert stays queued, seed C11-11) is a wait the
+   models do not have: it breaks this obligation whether or not a generated schedule reaches it.  What it does not
+   say: that the durations are what the models use (Gen/TablesOk_writer.v, TablesOk_subpkg.v tie those), or that the
+   one audited Sleep is used as modelled (the correspondence of C12/C13 does).  Removing a wait or moving it to
+   another function of the package changes nothing here. *)
 From Coq Require Import List NArith String Bool.
 From JT.Gen Require Import Tables_gen.
 Import ListNotations.
